@@ -55,6 +55,15 @@ class _:
         r = tt_ind2sub(shp, idx.copy(), **kw)
         if not np.array_equal(tt_sub2ind(shp, r, **kw), idx):
             raise Fail("sub2ind-ind2sub-roundtrip", f"{shp}")
+        for dt in (np.intp, np.int64, np.int32):
+            own = np.arange(P).astype(dt)
+            r2 = tt_ind2sub(shp, own, **kw)
+            if np.shares_memory(np.asarray(r2), own):
+                raise Fail("ind2sub-result-shares-memory-with-its-argument", f"{shp} {order} idx of type {np.dtype(dt)}")
+        own = subs.copy()
+        l2 = tt_sub2ind(shp, own, **kw)
+        if np.shares_memory(np.asarray(l2), own):
+            raise Fail("sub2ind-result-shares-memory-with-its-argument", f"{shp} {order}")
         neg = np.arange(-P, 0)
         keep = neg.copy()
         r = tt_ind2sub(shp, neg, **kw)
